@@ -25,13 +25,11 @@ Canonical(e) ==
    /\ IsRelabellingOf(e)                          \* the form is isomorphic to the input
    /\ e.fix = e.out                               \* and a fixed point
    /\ (e.big => LineageOK(e))
-   /\ LET k == Key(e) IN
-      /\ \A p \in table : (p[1] = k) <=> (p[2] = e.out)     \* equal forms iff same class
-      /\ table' = table \cup {<<k, e.out>>}
-   /\ base' = IF e.big /\ e.lin.perm = <<>> THEN base \cup {<<e.lin.class, e.in>>} ELSE base
+   /\ \A p \in table : (p[1] = Key(e)) <=> (p[2] = e.out)     \* equal forms iff same class
 Next == /\ l <= Len(Rec)
-        /\ "panic" \notin DOMAIN Rec[l]
-        /\ Canonical(Rec[l])
+        /\ ("panic" \notin DOMAIN Rec[l] /\ Canonical(Rec[l])) = TRUE
+        /\ table' = table \cup {<<Key(Rec[l]), Rec[l].out>>}
+        /\ base' = (IF Rec[l].big /\ Rec[l].lin.perm = <<>> THEN base \cup {<<Rec[l].lin.class, Rec[l].in>>} ELSE base)
         /\ l' = l + 1
 Spec == Init /\ [][Next]_vars
 Accepted == LET d == TLCGet("stats").diameter IN
